@@ -174,8 +174,9 @@ def run_react(c):
     data = np.arange(1, v['rows'] * v['cols'] + 1, dtype=float).reshape(v['rows'], v['cols'])
     oids = ['i%d' % i for i in v['oids']]
     sids = ['i%d' % i for i in v['sids']]
-    omd = None if v['omd'] is None else [{'k': i} for i in range(v['omd'])]
-    smd = None if v['smd'] is None else [{'k': i} for i in range(v['smd'])]
+    mk = {'dict': lambda i: {'k': i}, 'none': lambda i: None, 'empty': lambda i: {}}[c.get('mdkind', 'dict')]
+    omd = None if v['omd'] is None else [mk(i) for i in range(v['omd'])]
+    smd = None if v['smd'] is None else [mk(i) for i in range(v['smd'])]
     if site == 'ctor':
         ev = observe(lambda: Table(data, oids, sids, omd, smd) and None)
     elif site == 'filter':
@@ -374,6 +375,14 @@ def react_cases():
                         smd = 2
                 out.append({'kind': 'react', 'site': 'ctor', 'errkind': k, 'reaction': r, 'trigger': trig,
                             'view': view_of_table_args(rows, cols, oids, sids, omd, smd)})
+                if trig and k in ('obsmdsize', 'sampmdsize'):
+                    # metadata of the wrong size whose entries are all None / all empty is still the wrong size
+                    for mdkind in ('none', 'empty'):
+                        for n in (1, 3) if k == 'obsmdsize' else (2, 4):
+                            v = view_of_table_args(rows, cols, oids, sids, n if k == 'obsmdsize' else None,
+                                                   n if k == 'sampmdsize' else None)
+                            out.append({'kind': 'react', 'site': 'ctor', 'errkind': k, 'reaction': r, 'trigger': True,
+                                        'view': v, 'mdkind': mdkind})
     for site in ('filter', 'collapse'):
         for r in REACTIONS:
             for trig in (True, False):
